@@ -31,6 +31,11 @@ fallback-forwards-parameters (third round): every Remote* method that calls the 
 all of its own parameters (directly, through a derived local, or through * / **); five tabled exceptions with reasons.
 handler-lock-given-back (third round): for the five request handlers that lock and unlock one object within a request (table),
 no path from the lock call to a return or a raise avoids the unlock (CFG with exception edges).
+Twin coherence (from a third-round agent's observations on the unmodified tree): commit-drops-negative-cache — both commit paths of
+RemoteRepository.commit_write_group reset the noted misses before returning; rpc-write-reaches-real-branch — the wrappers of
+Branch.set_tags_bytes / Branch.put_config_file touch self._real_branch (or clear the cached state) after the RPC;
+answer-seeded-not-dropped — every return of _get_parent_map_rpc after the NULL_REVISION seed includes it (the last two have
+a known finding each).
 Does not decide: behavioural equivalence of remote and local operations (not applicable to static analysis).
 """
 VERB_RE = re.compile(rb"^(Branch|BzrDir|BzrDirFormat|Repository|PackRepository|Transport|VersionedFileRepository)\.[A-Za-z_0-9.]+$")
@@ -184,13 +189,51 @@ def run(ctx):
         lk_ = [n.id for n in g_.nodes if any(call_attr(c) in ("lock_write", "lock_read") and call_recv(c) == recv_ for c in n.calls())]
         ul_ = [n.id for n in g_.nodes if any(call_attr(c) == "unlock" and call_recv(c) == recv_ for c in n.calls())]
         ctx.require(bool(lk_), f"{rel_}:{q_}: {recv_}.lock_write()/lock_read() not found")
-        starts_ = [b for i in lk_ for (b, l) in g_.edges(i) if l != "X"]
+        starts_ = [b for i in lk_ for (b, l) in g_.edges(i) if l != "X" and b not in ul_]
         esc = {g_.exit, g_.raise_exit} & g_.reach(starts_, avoid=set(ul_), include_src=True)
         how = " and ".join(sorted("a normal return" if e == g_.exit else "an exception" for e in esc))
         wit = g_.path(starts_, list(esc), avoid=set(ul_)) if esc else None
         ctx.check("handler-lock-given-back", f"{rel_}:{q_}", bool(ul_) and not esc, f"every way out of the handler after {recv_}.lock_*() passes {recv_}.unlock()", construct=f"{recv_}: leaves through {how}" if esc else "", witness=g_.show_path(wit) if wit else None, message=f"{q_} can leave through {how} with its own lock on {recv_} still held (e.g. when a later lock is refused and the handler answers with a failure response): the server drops a write-locked object, a physical lock stays on disk and every later lock attempt — remote or local — is refused until break-lock; the same sequence on the local path leaves nothing locked")
 
+    # ---- the smart object and its real (VFS) twin see each other's writes -----------------------------------------------
+    # (a) a commit through the real repository drops the smart object's negative parents cache (PackRepository does the same
+    #     for its own cache in _commit_write_group; the RPC path goes through refresh_data())
+    fcw = repo.func(RM, "RemoteRepository.commit_write_group")
+    gcw = build_cfg(fcw).without_exc_edges()
+    commits = [n.id for n in gcw.nodes if any((call_attr(c) == "commit_write_group" and (call_recv(c) or "").startswith("self._real_")) or ((call_attr(c) or "").startswith("_call") and c.args and const_value(c.args[0], None) == b"Repository.commit_write_group") for c in n.calls())]
+    ctx.require(len(commits) >= 2, f"{RM}:RemoteRepository.commit_write_group: the two commit paths (real repository, RPC) were not found")
+    resets = [n.id for n in gcw.nodes if any(norm(c.func) in ("self._unstacked_provider.missing_keys.clear", "self.refresh_data", "self._unstacked_provider.disable_cache") for c in n.calls())]
+    for cm in commits:
+        starts_ = [b for (b, l) in gcw.edges(cm) if b not in resets]
+        leak = bool(starts_) and gcw.exit in gcw.reach(starts_, avoid=set(resets), include_src=True) if cm not in resets else False
+        ctx.check("commit-drops-negative-cache", f"{RM}:RemoteRepository.commit_write_group[{gcw.nodes[cm].text()[:60]}]", not leak, "after the commit every normal way out resets the cache of keys noted as missing", construct=gcw.nodes[cm].text()[:80], message="RemoteRepository.commit_write_group returns after committing through the real repository without dropping self._unstacked_provider.missing_keys: a revision id looked up (and noted missing) before the commit is still reported absent by get_parent_map / has_revision under the same lock, while the local repository reports it")
+    # (b) a state-writing Branch RPC leaves the real branch's cached copy of that state invalid
+    # Branch.set_parent_location is deliberately not in this table: the real branch would read the parent through the same
+    # cached store, but no operation of RemoteBranch asks the real branch for it, and a history that shows a difference
+    # could not be built (tried: pull, set_parent by RPC, set_push_location through the real branch, reopen).
+    WRITES = {b"Branch.set_tags_bytes": "tags", b"Branch.put_config_file": "branch.conf"}
+    n_w = 0
+    for q, f in repo.module(RM).functions().items():
+        verbs = [const_value(c.args[0], None) for c in calls_in(f) if (call_attr(c) or "").startswith("_call") and c.args and const_value(c.args[0], None) in WRITES]
+        if not verbs:
+            continue
+        n_w += 1
+        touches_real = any("_real_branch" in norm(n) and not norm(n).endswith("_ensure_real()") for n in ast.walk(f) if isinstance(n, (ast.Attribute,))) or any(call_attr(c) in ("_clear_cached_state",) for c in calls_in(f))
+        ctx.check("rpc-write-reaches-real-branch", f"{RM}:{q}", touches_real, f"{q} ({verbs[0].decode()}) invalidates or updates what the real branch caches about the {WRITES[verbs[0]]}", construct=verbs[0].decode(), message=f"{q} writes the {WRITES[verbs[0]]} by RPC and leaves the already opened real branch (self._real_branch, used by every VFS fallback such as pull) with its own cached copy from before the write: a later operation under the same lock that goes through the real branch works on the stale value — the same sequence on the local path sees the write")
+    ctx.require(n_w >= 2, f"{RM}: only {n_w} state-writing Branch RPC wrappers found (hand-confirmed: 2)")
+    # (c) what _get_parent_map_rpc has already answered itself is part of what it returns
+    fgp = repo.func(RM, "RemoteRepository._get_parent_map_rpc")
+    seeded = [a for a in walk_own(fgp) if isinstance(a, ast.Assign) and isinstance(a.value, ast.Dict) and a.value.keys and any(norm(k) == "NULL_REVISION" for k in a.value.keys)]
+    ctx.require(len(seeded) == 1, f"{RM}:RemoteRepository._get_parent_map_rpc: the answer seeded with NULL_REVISION was not found")
+    sv = norm(seeded[0].targets[0])
+    rets = [r_ for r_ in walk_own(fgp) if isinstance(r_, ast.Return) and r_.value is not None and r_.lineno > seeded[0].lineno and not (isinstance(r_.value, ast.Call) and call_attr(r_.value) == "_get_parent_map_rpc")]
+    merged = any((call_attr(c) == "update" and any(norm(a) == sv for a in c.args)) for c in calls_in(fgp)) or any(isinstance(a, ast.Assign) and norm(a.value) in (sv, f"dict({sv})") and norm(a.targets[0]) != sv for a in walk_own(fgp))
+    dropped = [f"L{r_.lineno}:{norm(r_)[:40]}" for r_ in rets if sv not in {n.id for n in ast.walk(r_.value) if isinstance(n, ast.Name)}] if not merged else []
+    ctx.check("answer-seeded-not-dropped", f"{RM}:RemoteRepository._get_parent_map_rpc", not dropped, f"every answer returned after `{sv}` was seeded with NULL_REVISION includes it", construct="; ".join(dropped), message=f"_get_parent_map_rpc answers NULL_REVISION itself ({sv} = {{NULL_REVISION: ()}}) but returns {'; '.join(dropped)} without it when other keys were asked too: get_parent_map([b'null:', rev]) omits null: through a smart server (and the caching provider then notes null: as missing), the local repository returns it")
+
 MUTANTS = [
+    Mutant("commit through the real repository keeps the noted misses (fix e13eeb1 reverted)", RM, "            self._unstacked_provider.missing_keys.clear()\n            return result\n", "            return result\n", expect="commit-drops-negative-cache"),
+    Mutant("RPC tag write leaves the real branch's cache (fix 4b9d7f5 reverted)", RM, "            if self._real_branch is not None:\n                # The real branch caches the tags it last read or wrote while\n                # it is locked, and it has not seen this write.\n                self._real_branch._tags_bytes = None\n", "            pass\n", expect="rpc-write-reaches-real-branch"),
     Mutant("repository lock of Branch.lock_write given back only on success", "breezy/bzr/smart/branch.py", "            try:\n                branch_token = branch.lock_write(token=branch_token).token\n            finally:\n                # this leaves the repository with 1 lock\n                branch.repository.unlock()\n", "            branch_token = branch.lock_write(token=branch_token).token\n            branch.repository.unlock()\n", expect="handler-lock-given-back"),
     Mutant("RemoteBranch.push drops the tag selector", RM, "                _override_hook_source_branch=self,\n                tag_selector=tag_selector,\n", "                _override_hook_source_branch=self,\n", expect="fallback-forwards-parameters"),
     Mutant("repository lock left in place before the branch lock is taken", "breezy/bzr/smart/branch.py", "            repo_token = branch.repository.lock_write(token=repo_token).repository_token\n            try:\n                branch_token = branch.lock_write(token=branch_token).token\n", "            repo_token = branch.repository.lock_write(token=repo_token).repository_token\n            if repo_token is not None:\n                branch.repository.leave_lock_in_place()\n            try:\n                branch_token = branch.lock_write(token=branch_token).token\n", expect="leave-lock-only-on-success"),
